@@ -78,7 +78,9 @@ func (p *Program) ApplyLayout(prog *Program) {
 
 func (p *Program) ApplyComponent(name string, prog *Program, progFilePath string) *fail.Error {
 	for _, comp := range p.Components {
-		if comp.Name.Value != name {
+		// every usage of a component gets its own program,
+		// otherwise usages would share their slots
+		if comp.Name.Value != name || comp.Block != nil {
 			continue
 		}
 
@@ -111,6 +113,8 @@ func (p *Program) ApplyComponent(name string, prog *Program, progFilePath string
 		}
 
 		comp.Block = prog
+
+		break
 	}
 
 	return nil
